@@ -148,6 +148,8 @@ impl<'a> MslV<'a> {
                 MBin::Mul => stuck(Stuck::Class(C_MAT_PRODUCT), format!("{} * {} is the matrix product in Metal", a.show(), b.show())),
                 _ => stuck(Stuck::Class(C_MAT_OP), format!("operator {:?} is not defined on {} and {}", m, a.show(), b.show())),
             },
+            (MTy::M(c, r), MTy::V(MS::Float, n)) if m == MBin::Mul && n == c => Some(MTy::V(MS::Float, *r)),
+            (MTy::V(MS::Float, n), MTy::M(c, r)) if m == MBin::Mul && n == r => Some(MTy::V(MS::Float, *c)),
             (MTy::M(..), MTy::S(_)) | (MTy::S(_), MTy::M(..)) if m == MBin::Mul => Some(if matches!(a, MTy::M(..)) { a.clone() } else { b.clone() }),
             (MTy::M(..), _) | (_, MTy::M(..)) => stuck(Stuck::Class(C_MAT_OP), format!("operator {:?} is not defined on {} and {}", m, a.show(), b.show())),
             _ => other(format!("operator {:?} on {} and {}", m, a.show(), b.show())),
@@ -311,7 +313,13 @@ impl<'a> MslV<'a> {
         if lib == "true_type" {
             return Some(MTy::Tag);
         }
-        if lib == "sign" || lib == "transpose" || lib == "determinant" {
+        if lib == "transpose" {
+            return match tys.first().map(|t| self.arith(t)) {
+                Some(Some(MTy::M(c, r))) => Some(MTy::M(r, c)),
+                _ => other("metal::transpose of a non-matrix".into()),
+            };
+        }
+        if lib == "sign" || lib == "determinant" {
             return stuck(Stuck::Skip, format!("metal::{} has no reading comparable with the uninterpreted built-in", lib));
         }
         let variant = match MBUILTINS.iter().find(|b| b.0 == lib) {
@@ -432,6 +440,13 @@ impl<'a> MslV<'a> {
 
     fn binary(&self, m: MBin, ta: &MTy, tb: &MTy, p: VV, q: VV) -> Option<VV> {
         let t = self.op_type(m, ta, tb)?;
+        if let (MBin::Mul, Some(a), Some(b)) = (m, self.arith(ta), self.arith(tb)) {
+            if matches!((&a, &b), (MTy::M(..), MTy::V(..)) | (MTy::V(..), MTy::M(..))) {
+                // the linear-algebra product of the logical matrix and the vector: RSSL's mul() of the same objects
+                let (ra, rb, rt) = (numeric_ty(&a)?, numeric_ty(&b)?, numeric_ty(&t)?);
+                return vintr("Mul", &[ra.show(), rb.show()], &[p, q], &rt);
+            }
+        }
         let shift = matches!(m, MBin::Shl | MBin::Shr) && !self.hlsl_literals;
         if shift {
             // left operand at its promoted type, the count at its own
